@@ -118,6 +118,37 @@ rc::Gen<uint64_t> gen_any(std::vector<X> anchors)
     });
 }
 
+// the same clamp field through three public construction paths: 0 = parameter pack (configuration, backend
+// configuration); 1 = owning data built with (configuration, backend owning data &&) and handed over as a pack;
+// 2 = dumped and loaded again. The box a lookup is clamped to must not depend on the path.
+template <class B>
+covfie::field<B> make_clamp_over_identity(const typename B::configuration_t & cfg, unsigned path)
+{
+    if (path == 1) {
+        typename B::owning_data_t od(cfg, typename B::backend_t::owning_data_t{});
+        return covfie::field<B>(pack(std::move(od)));
+    }
+    covfie::field<B> f(pack(cfg, std::monostate{}));
+    if (path == 2) {
+        std::stringstream ss;
+        f.dump(ss);
+        return covfie::field<B>(ss);
+    }
+    return f;
+}
+inline unsigned path_of(const Case & c)
+{
+    uint64_t h = c.xs.size();
+    for (auto w : c.lo) {
+        h = h * 1099511628211ULL + w;
+    }
+    for (auto w : c.hi) {
+        h = h * 1099511628211ULL + w;
+    }
+    return unsigned((h >> 17) % 3);
+}
+static const char * PATH_LABEL[] = {"built from a parameter pack", "built through owning_data_t(configuration, backend owning data &&)", "dumped and loaded"};
+
 template <class X>
 X ref_clamp(X x, X lo, X hi)
 {
@@ -139,7 +170,8 @@ struct OverIdentity {
                 return std::string("bad case: box with lo > hi");
             }
         }
-        covfie::field<B> f(pack(cfg, std::monostate{}));
+        covfie::field<B> f = make_clamp_over_identity<B>(cfg, path_of(c));
+        label(PATH_LABEL[path_of(c)]);
         typename covfie::field<B>::view_t v(f);
         for (auto & xb : c.xs) {
             typename covfie::field<B>::coordinate_t x;
@@ -180,6 +212,123 @@ struct OverIdentity {
             return rc::gen::map(rc::gen::container<std::vector<std::vector<uint64_t>>>(6, rc::gen::container<std::vector<uint64_t>>(N, gen_any<X>(anchors))), [c](std::vector<std::vector<uint64_t>> xs) {
                 Case d = c;
                 d.xs = xs;
+                return d;
+            });
+        });
+    }
+    static void campaign() { rc_campaign<Case>(name(), tier(1200, 120000), 100, gen(), run); }
+    static void reg()
+    {
+        add_inst(name(), campaign, [](const json & j) { return run(Case::from_json(j)); });
+    }
+};
+
+// ------------------------------------------------------------ clamp<identity<long double^N>>
+// "floating coordinate types" includes the widest one. A long double does not fit one 64-bit word: two words per value.
+inline void ld_put(std::vector<uint64_t> & v, long double x)
+{
+    uint64_t w[2] = {0, 0};
+    std::memcpy(w, &x, 10);
+    v.push_back(w[0]);
+    v.push_back(w[1]);
+}
+inline long double ld_get(const std::vector<uint64_t> & v, size_t k)
+{
+    long double x = 0;
+    uint64_t w[2] = {v[2 * k], v[2 * k + 1]};
+    std::memcpy(&x, w, 10);
+    return x;
+}
+inline rc::Gen<long double> gen_ld(std::vector<long double> anchors)
+{
+    using X = long double;
+    return rc::gen::map(rc::gen::tuple(in_range<unsigned>(0, 13), rc::gen::arbitrary<uint64_t>(), in_range<int>(-2, 2)), [anchors](std::tuple<unsigned, uint64_t, int> t) {
+        uint64_t r = std::get<1>(t);
+        X v;
+        switch (std::get<0>(t)) {
+            case 0: v = std::numeric_limits<X>::lowest(); break;
+            case 1: v = std::numeric_limits<X>::max(); break;
+            case 2: v = (r & 1) ? -X(0) : X(0); break;
+            case 3: v = (r & 1) ? std::numeric_limits<X>::infinity() : -std::numeric_limits<X>::infinity(); break;
+            case 4: v = std::numeric_limits<X>::denorm_min() * X(1 + r % 5); break;
+            case 5:
+            case 6:
+            case 7:
+            case 8: v = step(anchors[r % anchors.size()], std::get<2>(t)); break;
+            case 9: v = std::ldexp(X(int64_t(r >> 1) | 1), int(r % 64) - 62) * ((r & 1) ? -1 : 1); break;            // 63 significant bits: not a double
+            case 10: v = std::ldexp(X(1) + X(r % 1000) / 1024, 1024 + int(r % 15000)) * ((r & 1) ? -1 : 1); break;   // finite, beyond the range of double
+            case 11: v = std::ldexp(X(1) + X(r % 1000) / 1024, -1080 - int(r % 15000)); break;                         // below the range of double
+            default: {
+                double d = from_bits<double>(r);
+                v = std::isnan(d) ? X(int64_t(r % 2001) - 1000) / X(8) : X(d);
+            }
+        }
+        return v;
+    });
+}
+template <size_t N>
+struct OverIdentityLD {
+    using X = long double;
+    using B = cb::clamp<cb::identity<cv::vector_d<X, N>>>;
+    static std::string name() { return std::string("clamp<identity>/X=long double/N=") + std::to_string(N); }
+    static Verdict run(const Case & c)
+    {
+        typename B::configuration_t cfg;
+        for (size_t k = 0; k < N; ++k) {
+            cfg.min[k] = ld_get(c.lo, k);
+            cfg.max[k] = ld_get(c.hi, k);
+            if (!(cfg.min[k] <= cfg.max[k])) {
+                return std::string("bad case: box with lo > hi");
+            }
+        }
+        covfie::field<B> f = make_clamp_over_identity<B>(cfg, path_of(c));
+        label(PATH_LABEL[path_of(c)]);
+        typename covfie::field<B>::view_t v(f);
+        for (auto & xb : c.xs) {
+            typename covfie::field<B>::coordinate_t x;
+            bool outside = false;
+            for (size_t k = 0; k < N; ++k) {
+                x[k] = ld_get(xb, k);
+                outside = outside || x[k] < cfg.min[k] || x[k] > cfg.max[k];
+            }
+            auto got = v.at(x);
+            Hasher h;
+            h.vec(c.lo).vec(c.hi).vec(xb);
+            record(name(), outside, h.h, [&] { return json{{"lo_bits", c.lo}, {"hi_bits", c.hi}, {"x_bits", std::vector<std::vector<uint64_t>>{xb}}, {"extents", c.ext}}; });
+            for (size_t k = 0; k < N; ++k) {
+                X want = ref_clamp(x[k], cfg.min[k], cfg.max[k]);
+                if (!(got[k] == want)) {
+                    return "component " + std::to_string(k) + ": x = " + ld_str(x[k]) + " box [" + ld_str(cfg.min[k]) + "," + ld_str(cfg.max[k]) + "] -> backend queried at " + ld_str(got[k]) + ", component-wise clamp is " + ld_str(want);
+                }
+            }
+        }
+        return std::nullopt;
+    }
+    static rc::Gen<Case> gen()
+    {
+        auto bound = gen_ld({X(0), X(1), X(5)});
+        return rc::gen::mapcat(rc::gen::container<std::vector<std::pair<X, X>>>(N, rc::gen::pair(bound, bound)), [](std::vector<std::pair<X, X>> bs) {
+            Case c;
+            std::vector<X> anchors;
+            for (auto & b : bs) {
+                X a = b.first, z = b.second;
+                if (z < a) {
+                    std::swap(a, z);
+                }
+                ld_put(c.lo, a);
+                ld_put(c.hi, z);
+                anchors.push_back(a);
+                anchors.push_back(z);
+            }
+            return rc::gen::map(rc::gen::container<std::vector<std::vector<X>>>(6, rc::gen::container<std::vector<X>>(N, gen_ld(anchors))), [c](std::vector<std::vector<X>> xs) {
+                Case d = c;
+                for (auto & x : xs) {
+                    std::vector<uint64_t> w;
+                    for (X q : x) {
+                        ld_put(w, q);
+                    }
+                    d.xs.push_back(w);
+                }
                 return d;
             });
         });
@@ -459,6 +608,8 @@ void register_all()
     OverIdentity<double, 2>::reg();
     OverIdentity<double, 3>::reg();
     OverIdentity<double, 4>::reg();
+    OverIdentityLD<1>::reg();
+    OverIdentityLD<3>::reg();
     OverIdentity<uint16_t, 2>::reg();   // narrow types: comparisons are done after integer promotion
     OverIdentity<short, 3>::reg();
     OverArray<std::size_t, 1>::reg();
